@@ -15,9 +15,9 @@ RULE = ('one case = one operator run (apply or map) on one generated matrix shap
 FLOORS = (30, 15)
 
 QUICK = [('asan', 1, 1, 8), ('asan', 1, 4, 8), ('asan', 1, 8, 8), ('asan', 2, 2, 8), ('asan', 3, 2, 8), ('asan', 4, 2, 8), ('rel', 3, 4, 12)]
-THOROUGH = [('asan', 1, 1, 150), ('asan', 1, 2, 150), ('asan', 1, 4, 150), ('asan', 1, 8, 120), ('asan', 2, 1, 120), ('asan', 2, 2, 120), ('asan', 2, 4, 100),
-            ('asan', 3, 1, 80), ('asan', 3, 2, 100), ('asan', 4, 1, 80), ('asan', 4, 2, 80), ('asan', 4, 3, 60),
-            ('rel', 1, 8, 200), ('rel', 1, 3, 150), ('rel', 2, 4, 150), ('rel', 3, 3, 120), ('rel', 4, 2, 120), ('rel', 4, 4, 100)]
+THOROUGH = [('asan', 1, 1, 100), ('asan', 1, 2, 100), ('asan', 1, 4, 100), ('asan', 1, 8, 80), ('asan', 2, 1, 80), ('asan', 2, 2, 80), ('asan', 2, 4, 60),
+            ('asan', 3, 1, 60), ('asan', 3, 2, 60), ('asan', 4, 1, 50), ('asan', 4, 2, 50), ('asan', 4, 3, 40),
+            ('rel', 1, 8, 150), ('rel', 1, 3, 120), ('rel', 2, 4, 120), ('rel', 3, 3, 100), ('rel', 4, 2, 100), ('rel', 4, 4, 80)]
 COV = ('region_tiles', 'visits', 'multi_thread_cases', 'multi_owner_cases', 'apply', 'map', 'reduce_row', 'reduce_col', 'uplo_full', 'uplo_upper', 'uplo_lower',
        'apply_uplo_argument_unexpected')
 
@@ -36,7 +36,7 @@ def _last_at(r):
     return k, d
 
 
-def _run(ctx, exe, ranks, threads, args, tag, stall_s=90, timeout=3600):
+def _run(ctx, exe, ranks, threads, args, tag, stall_s=200, timeout=3600):
     return ctx.run([exe, '--threads', str(threads)] + [str(a) for a in args], timeout=timeout, stall_s=stall_s, mpi=ranks, tag=tag)
 
 
@@ -55,14 +55,14 @@ def _take(ctx, r, fl):
     return s['cases']
 
 
-def _bulk(ctx, exe, fl, ranks, threads, cases, seed):
+def _bulk(ctx, exe, fl, ranks, threads, cases, seed, mode='ops'):
     """One (ranks, threads) configuration; restart behind a case that stalled twice or ended the process."""
     start = 0; guard = 0
     while start < cases and guard < 6:
         guard += 1
-        tag = 'ops-%s-%dx%d-%d' % (fl, ranks, threads, start)
-        r = _run(ctx, exe, ranks, threads, ['--mode', 'ops', '--cases', cases, '--start', start, '--seed', seed], tag)
-        what = '%s ranks=%d threads=%d cases %d..%d seed %d' % (fl, ranks, threads, start, cases, seed)
+        tag = '%s-%s-%dx%d-%d' % (mode, fl, ranks, threads, start)
+        r = _run(ctx, exe, ranks, threads, ['--mode', mode, '--cases', cases, '--start', start, '--seed', seed], tag)
+        what = '%s %s ranks=%d threads=%d cases %d..%d seed %d' % (fl, mode, ranks, threads, start, cases, seed)
         st = ctx.absorb(r, what, expect_objs=False)
         if r.summary() is not None:
             _take(ctx, r, fl)
@@ -73,7 +73,7 @@ def _bulk(ctx, exe, fl, ranks, threads, cases, seed):
             return
         if st == 'stalled':
             # stall rule: the same case alone, once more
-            r2 = _run(ctx, exe, ranks, threads, ['--mode', 'ops', '--cases', at + 1, '--start', at, '--seed', seed], tag + '-again')
+            r2 = _run(ctx, exe, ranks, threads, ['--mode', mode, '--cases', at + 1, '--start', at, '--seed', seed], tag + '-again')
             st2 = ctx.absorb(r2, what + ' (case %d alone)' % at, expect_objs=False)
             if st2 == 'stalled':
                 op = (re.search(r'op=(\w+)', desc) or [None, 'op'])[1]
@@ -91,7 +91,7 @@ def _probe(ctx, exe, ranks, threads, mode, extra, key_on_stall, what):
 
     def once():
         k[0] += 1
-        return _run(ctx, exe, ranks, threads, ['--mode', mode, '--cases', 1, '--seed', ctx.seed] + extra, 'probe-%s-%d-%d' % (mode, ranks, k[0]), stall_s=150, timeout=900)
+        return _run(ctx, exe, ranks, threads, ['--mode', mode, '--cases', 1, '--seed', ctx.seed] + extra, 'probe-%s-%d-%s-%d' % (mode, ranks, '_'.join(str(x).strip('-') for x in extra), k[0]), stall_s=150, timeout=900)
     r = once(); st = ctx.absorb(r, what, expect_objs=False)
     if st == 'stalled':
         r2 = once(); st2 = ctx.absorb(r2, what, expect_objs=False)
@@ -116,6 +116,8 @@ def run(ctx):
     plan = THOROUGH if thorough else QUICK
 
     jobs = [('bulk',) + p for p in plan]
+    # contention workload for the hand-written column hand-over of the map operator (short columns, many threads)
+    jobs += [('race', 'asan', 1, 8, 10 if not thorough else 150), ('race', 'rel', 1, 8, 40 if not thorough else 1500), ('race', 'rel', 2, 6, 20 if not thorough else 600)]
     # probes for the recorded findings (one process each)
     jobs += [('probe', 2, 2, 'map_empty_rank', [], 'map:stall:rank-without-source-tiles', 'map operator, 1 source tile on 2 ranks'),
              ('probe', 1, 2, 'reduce_row', ['--mt', 1, '--nt', 1], 'reduce_row:stall:no-progress', 'reduce_row on 1x1 tiles'),
@@ -130,6 +132,9 @@ def run(ctx):
         if j[0] == 'bulk':
             _, fl, ranks, threads, n = j
             _bulk(ctx, exes[fl], fl, ranks, threads, n, ctx.seed * 100 + ranks * 10 + threads)
+        elif j[0] == 'race':
+            _, fl, ranks, threads, n = j
+            _bulk(ctx, exes[fl], fl, ranks, threads, n, ctx.seed * 100 + 7, mode='map_race')
         else:
             _, ranks, threads, mode, extra, key, what = j
             _probe(ctx, exes['asan'], ranks, threads, mode, extra, key, what)
